@@ -84,6 +84,8 @@ class SendPaths:
         self.oneshots = []       # Site of oneshot::channel calls
         self.thread_spawns = []
         self.block_ons = []
+        import anchors
+        self.record_def = anchors.record_def(f)
         for b in f.fn_bodies():
             cfg = cfg_of(b, unwind=True, cancel=True)
             tr = tracer_of(b)
@@ -108,7 +110,7 @@ class SendPaths:
                     (self.mailbox_ops if m[1] == "mailbox" else self.ctrl_ops if m[1] == "ctrl" else []).append((Site(b, blk.idx), m[0]))
                 c = fn.get("def")
                 p = fn.get("path") or ""
-                if c == "dead_letter::record":
+                if c is not None and c == self.record_def:
                     self.records.append((Site(b, blk.idx), [f.ty(t) for t in fn["targs"]], [tr.norm(a) for a in tr.call_args(blk.idx)], blk.term["args"]))
                 elif p == "tokio::time::timeout::timeout":
                     self.timeouts.append(Site(b, blk.idx))
@@ -118,6 +120,45 @@ class SendPaths:
                     self.thread_spawns.append(Site(b, blk.idx))
                 elif fn.get("name") == "block_on" and fn.get("krate") in ("tokio", "futures_executor"):
                     self.block_ons.append(Site(b, blk.idx))
+        self._attribute_ctor_helpers()
+
+    def _attribute_ctor_helpers(self):
+        """Error values built by a pure constructor helper (`fn closed_error(&self) -> Error`)
+        are attributed to the helper's call sites, with the fields re-expressed at the caller."""
+        from prov import ctor_summary, substitute_params
+        f = self.f
+        helpers = {}
+        for d, fn in f.fns.items():
+            if fn.get("has_body") and not fn.get("async"):
+                sm = ctor_summary(f, d, adts=("error::Error",))
+                if sm is not None:
+                    helpers[d] = sm
+        if not helpers:
+            return
+        self.ctor_helpers = helpers
+        # drop the aggregate sites that live inside the helpers
+        self.errors = [e for e in self.errors if (e[0].body.root or e[0].body.defn) not in helpers]
+        for b in f.fn_bodies():
+            cfg = cfg_of(b, unwind=True, cancel=True)
+            tr = tracer_of(b)
+            for blk in b.calls():
+                if blk.idx not in cfg.live:
+                    continue
+                fn = fn_of(blk)
+                d = (fn.get("resolved") or {}).get("def") or fn.get("def")
+                if d not in helpers:
+                    continue
+                r, ctr = helpers[d]
+                args = [tr.norm(a) for a in tr.call_args(blk.idx)]
+                rr = substitute_params(r, args, ctr)
+                core = strip_wrappers(rr)
+                wrapped = False
+                if core[0] == "agg" and core[1][0] == "adt" and core[1][1] == "std::result::Result" and core[2]:
+                    core = strip_wrappers(core[2][0])
+                    wrapped = True
+                if core[0] == "agg" and core[1][0] == "adt" and core[1][1] == "error::Error":
+                    flds = dict(zip(core[1][3], core[2]))
+                    self.errors.append((Site(b, blk.idx), core[1][2], flds, {"helper": d, "E": ("call", blk.idx, callee(blk.term)), "wrapped_err": wrapped}))
 
     # ---- guards / failure context ----------------------------------------------------------
     def guards(self, body, bb):
@@ -286,6 +327,19 @@ class SendPaths:
         if t[0] == "param" and body.parent is not None:
             return ("closure_param", body.defn, t[1])
         return t
+
+    def is_self_identity(self, body, t):
+        """t denotes `self.identity()` of the root function's self (directly or through a
+        constructor helper that was summarised)."""
+        t = strip_wrappers(t)
+        if t[0] == "call" and t[2] in ("actor_ref::ActorRef::<T>::identity",):
+            tr = tracer_of(body)
+            who = self.resolve_to_root_param(body, tr.norm(tr.call_args(t[1])[0]))
+            return who[0] in ("param", "clone_of_param") and who[2] == 1
+        if t[0] == "calleecall" and t[1] in ("actor_ref::ActorRef::<T>::identity",) and t[2]:
+            who = self.resolve_to_root_param(body, t[2][0])
+            return who[0] in ("param", "clone_of_param") and who[2] == 1
+        return False
 
 
 def variant_names(f, ty):
